@@ -407,7 +407,8 @@ func ParentMain(o Options) int {
 		fmt.Println("unknown property", o.Prop)
 		return 3
 	}
-	work := filepath.Join(o.VerifDir, ".work", o.Prop)
+	// one work directory per (property, tier, seed): a quick and a thorough run of one property may overlap
+	work := filepath.Join(o.VerifDir, ".work", fmt.Sprintf("%s-%v-%d", o.Prop, o.Tier, o.Seed))
 	os.RemoveAll(work)
 	os.MkdirAll(work, 0o755)
 	agg := newAgg()
